@@ -28,3 +28,55 @@ package koalabear
 //@ ensures[rejected] !isnil(result1) ==> isnil(result0) && forall(i, 0, N, z[i] == old(z[i]))
 //@ modifies z
 //@ end
+
+// The synchronous vector codec. ReadFrom returns nil only if the length prefix and every element buffer were read
+// completely (io.ReadFull: assumed contract of the standard library) and every element decoder accepted its buffer
+// (the decoder accepts exactly the canonical encodings: proved, C08), and then reports 4 + Bytes*len bytes; WriteTo
+// returns nil only if every write succeeded, and then reports 4 + Bytes*len bytes. Readers, writers and the element
+// codec are opaque calls captured at every call.
+//@ func io.ReadFull
+//@ assumed io.ReadFull (standard library): copies into buf from the reader and reports how many bytes it copied, at most len(buf), and exactly len(buf) when it returns no error
+//@ ensures 0 <= result0 && result0 <= len(buf) && (isnil(result1) ==> result0 == len(buf))
+//@ modifies buf
+//@ end
+
+//@ func (io.Writer).Write
+//@ assumed interface io.Writer: Write reports how many bytes of p it wrote, at most len(p), and returns an error when it wrote fewer; it neither keeps nor changes p
+//@ ensures 0 <= result0 && result0 <= len(p) && (isnil(result1) ==> result0 == len(p))
+//@ end
+
+//@ func Vector.ReadFrom
+//@ tags any
+//@ layer ring Element
+//@ option nomerge
+//@ option opaque Element
+//@ ghost failed = false
+//@ cut after call io.ReadFull #*
+//@ + ghost failed = failed || !isnil(callresult1)
+//@ cut after call Element #*
+//@ + ghost failed = failed || !isnil(callresult1)
+//@ loop 0
+//@ + invariant[progress] 0 <= i && i <= sliceLen && len(*vector) == sliceLen && n == 4 + Bytes * i && !failed
+//@ ensures[no-hidden-error] isnil(result1) ==> !failed
+//@ ensures[count] isnil(result1) ==> result0 == 4 + Bytes * len(*vector)
+//@ modifies vector
+//@ end
+
+//@ func Vector.WriteTo
+//@ tags any
+//@ layer ring Element
+//@ option nomerge
+//@ option opaque PutElement
+//@ option opaque-writes PutElement:1
+//@ ghost failed = false
+//@ cut after call binary.Write #*
+//@ + ghost failed = failed || !isnil(callresult)
+//@ cut after call io.Writer.Write #*
+//@ + optional
+//@ + ghost failed = failed || !isnil(callresult1)
+//@ loop 0
+//@ + invariant[progress] 0 <= i && i <= len(*vector) && n == 4 + Bytes * i && !failed
+//@ ensures[no-hidden-error] isnil(result1) ==> !failed
+//@ ensures[count] isnil(result1) ==> result0 == 4 + Bytes * len(*vector)
+//@ modifies nothing
+//@ end
